@@ -620,6 +620,7 @@ Example unlisted_sites_rejected :
   site_safe (mk CComment SEsc "Operation.description" "api/*/*.py") = false /\
   site_safe (mk CCode SNone "Schema.default@prop-string" "models/*.py") = false /\
   site_safe (mk CDQ SNone "Schema.enum.item@component" "models/*.py") = false /\
+  site_safe (mk CDQ SNone "Schema.enum.item@component-positional" "models/*.py") = false /\
   site_safe (mk CDocCooked SEsc "Operation.description" "api/*/*.py") = false /\
   site_safe (mk CIdent SSanitize "Operation.operationId" "api/*/*.py") = false /\
   site_safe (mk CIdent SEsc "Schema.properties.key@collide" "models/*.py") = false /\
